@@ -8,20 +8,25 @@ open Kopf.C10
 
 /-- The post-run branch chain of the code, evaluated on the facts of a configuration and a run
     (every sleep entered at `patched`), is the model's `wake` — for every configuration and run. -/
-theorem post_eq (cfg : Cfg) (r : Run) :
-    wakeOfPost r.patched (Extracted.post (postAtoms cfg r)) = wake cfg r := by
+theorem post_eq (cfg : Cfg) (h' : HState) (it : Iter) :
+    wakeOfPost it.patched (Extracted.post (postAtoms cfg h' it)) = wake cfg h' it := by
   rcases cfg with ⟨interval, sharp, idle, initialDelay, backoff, errors, retries⟩
   unfold wake Extracted.post postAtoms wakeOfPost
-  cases hout : Run.out _ r with
-  | retry d => simp
-  | done =>
+  cases hf : h'.finished with
+  | false => simp
+  | true =>
     cases interval with
     | some i => cases sharp <;> simp
     | none => cases idle <;> simp
-  | failed =>
-    cases interval with
-    | some i => cases sharp <;> simp
-    | none => cases idle <;> simp
+
+/-- the reset at the top of the loop: the extracted condition is the model's, and `HState.atTop` applies it
+    to the carried state (`state.done` = finished, `state.counts.failure` ≠ 0 = the failure flag) -/
+theorem reset_top_eq (a : TopAtoms) : Extracted.resetAtTop a = resetAtTop a := rfl
+
+theorem at_top_eq (h : HState) :
+    h.atTop = if Extracted.resetAtTop { done := h.finished, anyFailure := h.failure } = true then HState.fresh else h := by
+  unfold HState.atTop Extracted.resetAtTop
+  cases h.finished <;> cases h.failure <;> simp
 
 /-- the idle gate's loop condition and sleep argument -/
 theorem idle_cond_eq (a : GateAtoms) : Extracted.idleCond a = idleCond a := rfl
